@@ -78,7 +78,9 @@ def peg(node):
                     return peg(k)
             return ("unknown", name)
         if name in ("combinator::not", "combinator::peek"):
-            return ("look", peg(kids[0]))
+            return ("look", peg(kids[0]), name.rsplit("::", 1)[1])
+        if name in ("complete::one_of", "streaming::one_of") and kids and kids[0][0] in ("str", "char"):
+            return ("cls", kids[0][1])
         if name.startswith("parser::") and kids and kids[0][0] in ("str", "char") and name[len("parser::"):] in PARAM_TOKEN_RULES:
             # helper combinator taking the token text:  keyword("if")  ==  tag("if") followed by a look-ahead
             return ("tok", kids[0][1], False, "bounded")
@@ -825,6 +827,83 @@ def run(chk, prog):
             chk.finding("R5-blank", P + n, "rule-without-ws", n, rule_fns[n].file,
                         "expression rule %s does not skip leading blanks" % n)
     chk.floor("R5-blank", ntok[0], 40, "token parsers in expression rules")
+    # R5-look: in an expression rule a token is not given a negative look-ahead over punctuation with which the operand that follows
+    # may begin.  `tag("=")` followed by `not(one_of("=~"))` rejects `let a=~b in a` while `let a= ~b in a` parses: a blank between two
+    # tokens changes the result.  (Look-aheads over identifier characters are word boundaries and are not affected.)
+    def first_chars(p, seen):
+        t = p[0]
+        if t == "tok":
+            return {p[1][0]} if p[1] else set()
+        if t == "cls":
+            return set(p[1])
+        if t == "ref":
+            if p[1] in seen or p[1] not in pegs:
+                return set()
+            return first_chars(pegs[p[1]], seen | {p[1]})
+        if t == "alt":
+            out = set()
+            for k in p[1]:
+                out |= first_chars(k, seen)
+            return out
+        if t == "seq":
+            out = set()
+            for k in p[1]:
+                out |= first_chars(k, seen)
+                if k[0] not in ("opt", "many", "look"):
+                    break
+            return out
+        if t in ("ws", "lex", "opt", "many"):
+            return first_chars(p[1], seen)
+        if t == "sep":
+            return first_chars(p[1], seen)
+        return set()
+
+    def linear(p, out):
+        if p[0] == "seq":
+            for k in p[1]:
+                linear(k, out)
+        elif p[0] in ("ws", "lex"):
+            linear(p[1], out)
+        else:
+            out.append(p)
+        return out
+
+    def walk_seqs(p, fn_):
+        if p[0] == "seq":
+            fn_(linear(p, []))
+        if p[0] in ("alt", "seq"):
+            for k in p[1]:
+                walk_seqs(k, fn_)
+        elif p[0] in ("ws", "lex", "opt", "many", "look"):
+            walk_seqs(p[1], fn_)
+        elif p[0] == "sep":
+            walk_seqs(p[1], fn_)
+            walk_seqs(p[2], fn_)
+
+    nlook = [0]
+    for n in sorted(expr_rules - LEXICAL):
+        def chk_seq(items, n=n):
+            for i, k in enumerate(items):
+                if k[0] == "look" and len(k) > 2 and k[2] == "not" and i > 0 and items[i - 1][0] == "tok":
+                    excl = first_chars(k[1], set())
+                    punct = set(c for c in excl if not (c.isalnum() or c == "_"))
+                    if not punct:
+                        continue
+                    nlook[0] += 1
+                    nxt = set()
+                    for k2 in items[i + 1:]:
+                        nxt |= first_chars(k2, set())
+                        if k2[0] not in ("opt", "many", "look"):
+                            break
+                    clash = sorted(punct & nxt)
+                    chk.instance("R5-look", rule_fns[n].file, "token %r in %s: its negative look-ahead excludes nothing the next operand can start with" % (items[i - 1][1], n), not clash)
+                    if clash:
+                        chk.finding("R5-look", P + n, "lookahead-eats-operand", items[i - 1][1], "%s:%d" % (rule_fns[n].file, rule_fns[n].line),
+                                    "token %r in rule %s must not be followed by %s, but the operand after it may begin with %s: the construct parses "
+                                    "only with a blank in between, so whitespace between two tokens changes the result" % (
+                                        items[i - 1][1], n, sorted(punct), clash))
+        walk_seqs(pegs[n], chk_seq)
+
     # R5-skip: `blank` is the only skipper in the expression grammar.  A bare whitespace parser there either demands whitespace
     # (multispace1 after a keyword) or skips whitespace but not comments (multispace0 around the terminator).
     nskip = 0
